@@ -89,6 +89,32 @@ def _trap_case(c):
     return fails, out
 
 
+def _ref_highorder(pts, a, b, max_degree):
+    """reference model of the moment-matching rule (split_up=False): for d = 1, 2, ... the weights
+    w_d = argmin sum w_i^2 / t_i  s.t.  sum w_i x_i^k = int x^k (k <= d)   (t = trapezoidal weights), i.e. sqrt(t) * (min-norm solution);
+    the rule keeps the last d (<= max_degree, < number of points) before the first w_d with a negative weight.
+    Returns (weights, degree, ambiguous) - ambiguous when a weight of some w_d is zero up to rounding, so the sign test can go either way."""
+    from numpy.polynomial import legendre
+    x = 2.0 * (np.asarray(pts, dtype=float) - a) / (b - a) - 1.0
+    t = np.asarray(hats.trapezoid_weights([float(v) for v in x], boundary=True, modified=False), dtype=float)
+    best, D, amb = t * (b - a) / 2.0, 1, False
+    d = 1
+    while d < len(x) and d <= max_degree:
+        V = legendre.legvander(x, d).T                      # (d+1) x n
+        A = V * np.sqrt(t)
+        m = np.zeros(d + 1)
+        m[0] = 2.0
+        y = np.linalg.lstsq(A, m, rcond=None)[0]
+        w = np.sqrt(t) * y * (b - a) / 2.0
+        if np.min(w) < 1e-12 * (b - a):
+            if np.min(w) > -1e-12 * (b - a):
+                amb = True
+            break
+        best, D = w, d
+        d += 1
+    return best, D, amb
+
+
 def _hier_case(c):
     from sparseSpACE.Function import CustomFunction
     pts, lv, a, b = c["points"], c["levels"], c["a"], c["b"]
@@ -102,11 +128,25 @@ def _hier_case(c):
         g.set_grid([pts], [lv])
         val = np.asarray(g.integrate(f, [max(lv)], np.array([a]), np.array([b])), dtype=float).ravel()
         degs = []
+        ref = None
+        if kind[0] == "highorder" and not kind[1][1]:
+            ref = _ref_highorder(pts, a, b, order)
+            w = np.asarray(g.weights[0], dtype=float)
+            if not ref[2] and (len(w) != len(ref[0]) or np.max(np.abs(w - ref[0])) > 1e-9 * (b - a)):
+                fails.append(fail("weights_equal_moment_matching_reference", "points %r: weights %r, reference (degree %d) %r" % (pts, list(w), ref[1], list(ref[0])), key))
+            out.append(("deg", ref[1]))
         for q in range(order + 1):
             ex = _exact(q, a, b)
             ok = abs(val[q] - ex) <= 1e-9 * max(1.0, abs(a), abs(b)) ** q * (b - a)
             degs.append(ok)
-            demanded = q <= 1 or (2 ** m + 1 >= q + 1)
+            if kind[0] == "highorder":
+                # "enough points" for this rule = non-negative moment-matching weights exist up to degree q (reference model);
+                # splitting up never lowers the degree of the whole-grid rule
+                if ref is None:
+                    ref = _ref_highorder(pts, a, b, order)
+                demanded = q <= 1 or (q <= ref[1] and not ref[2])
+            else:
+                demanded = q <= 1 or (2 ** m + 1 >= q + 1)
             if demanded and not ok:
                 fails.append(fail("polynomial_exactness", "points %r (complete level %d): integral of x^%d is %r, exact %r" % (pts, m, q, val[q], ex),
                                   dict(key, degree=("linear" if q <= 1 else "higher"))))
